@@ -260,6 +260,15 @@ class Out:
     pass
 
 
+def _mpe_form(alg, freqs, order, rtol):
+    """The documented signature is mpe(sel_freq, order, rtol): keyword and positional calls mean the same. The form rotates with
+    the tolerance (0.02 -> positional, 0.05 = the default value -> keywords), so every table meets both."""
+    if int(round(rtol * 100)) % 2 == 0:
+        alg.mpe(freqs, order, rtol)
+    else:
+        alg.mpe(sel_freq=freqs, order=order, rtol=rtol)
+
+
 def call(route, T, freqs, order, rtol):
     """Execute one extraction; returns an Out record (or raises what the library raises)."""
     cov = route.endswith("+cov")
@@ -288,7 +297,7 @@ def call(route, T, freqs, order, rtol):
         alg = SSIcov(name="c11", br=2)
         kw = dict(Fn_poles_cov=a["Fc"], Xi_poles_cov=a["Xc"], Phi_poles_cov=a["Pc"]) if cov else {}
         alg.result = SSIResult(Fn_poles=a["Fn"], Xi_poles=a["Xi"], Phi_poles=a["Phi"], Lab=a["Lab"], **kw)
-        alg.mpe(sel_freq=freqs, order=order, rtol=rtol)
+        _mpe_form(alg, freqs, order, rtol)
         res = alg.result
         o.Fn, o.Xi, o.Phi, o.order_out, o.Fc, o.Xc, o.Pc = res.Fn, res.Xi, res.Phi, res.order_out, res.Fn_cov, res.Xi_cov, res.Phi_cov
     elif base == "pLSCF.mpe":
@@ -297,7 +306,7 @@ def call(route, T, freqs, order, rtol):
 
         alg = pLSCF(name="c11", ordmax=3)
         alg.result = pLSCFResult(Fn_poles=a["Fn"], Xi_poles=a["Xi"], Phi_poles=a["Phi"], Lab=a["Lab"])
-        alg.mpe(sel_freq=freqs, order=order, rtol=rtol)
+        _mpe_form(alg, freqs, order, rtol)
         res = alg.result
         o.Fn, o.Xi, o.Phi, o.order_out = res.Fn, res.Xi, res.Phi, res.order_out
         o.Fc = o.Xc = o.Pc = None
